@@ -135,6 +135,15 @@ def check(chk):
         raise C.Undecided("GoSyncProg printed no outcome for some scenario")
 
     implout = run_impl_model(chk, thorough, scen_path, allowed, byid)
+    # Go's sync.Mutex state machine over the semaphore contract: mutual exclusion, every waiter admitted (design level)
+    mcfg = os.path.join(rd, "mutex_run.cfg")
+    C.write_cfg(mcfg, constants={"NThreads": 3 if thorough else 2, "Rounds": 2, "defaultInitValue": 0},
+                invariants=["MutualExclusion", "NoLostWaiter", "CleanEnd", "StateSane"])
+    resM = C.tlc(SPEC, "MutexOverSema", mcfg, rd, timeout=3000, parse_json=False)
+    chk.add_tlc(resM, "MutexOverSema")
+    chk.cov["mutex_over_sema"] = {"ok": resM.ok, "violation": resM.violation, "states": resM.distinct}
+    if not resM.ok:
+        raise C.Undecided("MutexOverSema: Go's Mutex over the semaphore contract violates %s (spec defect)" % resM.violation)
 
     binpath = sched.build(rd, "semasched")
     shards = C.NCPU
